@@ -60,7 +60,11 @@ func sigName(ctx bool, fixed []string, variadic string, retErr bool) string {
 func sigFormat(types []string, vals []any) string {
 	parts := make([]string, len(vals))
 	for i, v := range vals {
-		parts[i] = fmt.Sprintf("%s:%v", types[min(i, len(types)-1)], v)
+		pt := types[min(i, len(types)-1)]
+		if pt == "any" {
+			pt = fmt.Sprintf("any(%T)", v) // what an untyped parameter received, type included
+		}
+		parts[i] = fmt.Sprintf("%s:%v", pt, v)
 	}
 	return "got(" + strings.Join(parts, ",") + ")"
 }
@@ -157,7 +161,7 @@ func (g *gen) sigSources(pt string) []Arg {
 	case "bool":
 		return []Arg{{K: "bool", V: "true"}, {K: "bool", V: "false"}, {K: "path", V: bpath}, {K: "path", V: "u"}, {K: "path", V: "m.ok"}}
 	}
-	return []Arg{{K: "str", V: "abc", Q: "s"}, {K: "int", V: "7"}, {K: "float", V: "1.5"}, {K: "bool", V: "true"}, {K: "path", V: "a"}, {K: "path", V: "s"}, {K: "path", V: fpath}, {K: "path", V: "big"}}
+	return []Arg{{K: "str", V: "abc", Q: "s"}, {K: "int", V: "7"}, {K: "float", V: "1.5"}, {K: "float", V: "2.0"}, {K: "float", V: "1e3"}, {K: "bool", V: "true"}, {K: "path", V: "a"}, {K: "path", V: "s"}, {K: "path", V: fpath}, {K: "path", V: "big"}}
 }
 
 func argExpr(a Arg) Expr {
